@@ -160,6 +160,23 @@ def check(ctx):
     ctx.ob("registry.distinct-names", fm.classes.get("x", CF), "FORMATS names %s" % names, len(set(names)) == len(names),
            "every format has its own name" if len(set(names)) == len(names) else "two formats are registered under one name: %s" % names)
     registered = {v for vs in reg.values() for v in vs}
+    # further tables of the formats module that initialize_registry reads (a table of wrapper formats next to FORMATS)
+    ir0 = model.method("ConfigFormat", "initialize_registry")
+    for x in ast.walk(ir0.node):
+        if isinstance(x, ast.Name) and x.id != "FORMATS" and x.id in fm.assigns:
+            try:
+                extra = model.module_const(fm, x.id)
+            except (ValueError, KeyError):
+                continue
+            for row in (extra if isinstance(extra, (list, tuple)) else []):
+                for cell in (row if isinstance(row, (list, tuple)) else [row]):
+                    if isinstance(cell, Symbol) or hasattr(cell, "name"):
+                        registered.add(str(cell.name).split(".")[-1])
+        # (a short new table is written out row by row: the class is then named in a registering call)
+        par = getattr(x, "_parent", None)
+        if isinstance(x, ast.Name) and isinstance(x.ctx, ast.Load) and x.id in model.classes and model.classes[x.id].is_subclass_of(CF) and (
+                (isinstance(par, ast.Call) and x in par.args) or (isinstance(par, ast.Assign) and par.value is x)):
+            registered.add(x.id)        # handed to a registering call / stored into a class-level table
     for c in classes:
         ctx.ob("registry.complete", c, "%s in FORMATS" % c.name, c.name in registered, "registered" if c.name in registered else
                "%s is not registered: ConfigFormat.get cannot find it" % c.name)
@@ -174,7 +191,9 @@ def check(ctx):
     get = model.method("ConfigFormat", "get")
     g = an.cfg(get)
     init_calls = {n for n in g.nodes if any(c.name == "initialize_registry" for c in an.callees(get, n))}
-    lookups = [n for n in g.nodes if n.kind == "subscript"]
+    lookups = [n for n in g.nodes if n.kind == "subscript" or (
+        n.kind == "call" and isinstance(n.ast.func, ast.Attribute) and n.ast.func.attr == "get" and isinstance(n.ast.func.value, ast.Attribute)
+        and isinstance(n.ast.func.value.value, ast.Name) and n.ast.func.value.value.id == get.self_name)]       # TABLE[name] / TABLE.get(name)
     ok = bool(init_calls) and bool(lookups)
     for lk in lookups:
         # the lookup is reached only with the registry initialised: through the init call or with the flag set
